@@ -13,6 +13,7 @@ import TzVerif.Spec.Tzif
 import TzVerif.Proofs.TzifRoundTrip
 import TzVerif.Proofs.TzifReject
 import TzVerif.Proofs.TzifSound
+import TzVerif.Proofs.SrcEqTzString
 
 namespace TzVerif.C08
 open TzVerif.Model TzVerif.Proofs
@@ -120,5 +121,11 @@ theorem accepted_v2_is_written (b : Bytes) (hb : ∀ x ∈ b, x < 256) (z : Time
       Spec.TimesFit 64 z ∧ b = Spec.encodeV2 v1 z l footerText ∧
       parseFooter ([10] ++ footerText ++ [10]) (l.versionByte == 51) = .ok z.extraRule :=
   decode_sound_v2 b hb z h hv
+
+/-- the footer of version-2/3 files is decoded by this parser: src/parse/tz_string.rs translated to Lean on every run (DESIGN §13) equals the model's
+    `parsePosixTz` used by the theorems above -/
+theorem translated_parser_is_the_model (s : TzVerif.Model.Bytes) (ext : Bool) :
+    Src.parse_posix_tz s ext = TzVerif.Model.parsePosixTz s ext :=
+  TzVerif.Proofs.SrcEq.parse_posix_tz_eq s ext
 
 end TzVerif.C08
